@@ -24,6 +24,7 @@ var c12inputs = []input{
 	{"text/xml", "<a> b</a>"}, {"image/svg+xml", "<svg> <g/></svg>"},
 	{"application/javascript", "a = (1;"}, // minifier fails
 	{"application/json", `[1000,}`},       // minifier fails
+	{"application/json", `{"a" : 1, "b":[1,}]`}, // minifier fails late, after several writes
 	{"text/plain", "x y"},                 // unregistered
 }
 
@@ -136,6 +137,11 @@ func writerScenario(in input, r ref, chunks [][]byte, closeTwice bool) scenario 
 				if got != r.err {
 					v = append(v, fmt.Sprintf("minifier error %q was not delivered by Write/Close: write=%v close=%v", r.err, writeErr, closeErr))
 				}
+				// "deliver all output and the minifier's error": what the plain call had written to its
+				// destination when it failed is what the wrapper's destination holds when Close returns
+				if !bytes.Equal(atClose, r.out) {
+					v = append(v, fmt.Sprintf("the minifier failed (%s) after writing %q in the plain call; at the instant Close returned the sink held %q", r.err, r.out, atClose))
+				}
 			}
 			if closeTwice && close2Err != nil {
 				v = append(v, fmt.Sprintf("second Close returned %v", close2Err))
@@ -192,8 +198,13 @@ func readerScenario(in input, r ref, chunks [][]byte, readSize int, zeroFirst bo
 				if finalErr != io.EOF {
 					v = append(v, fmt.Sprintf("stream ended with %v instead of EOF", finalErr))
 				}
-			} else if errStr(finalErr) != r.err {
-				v = append(v, fmt.Sprintf("minifier error %q not delivered to the consumer, got %v", r.err, finalErr))
+			} else {
+				if errStr(finalErr) != r.err {
+					v = append(v, fmt.Sprintf("minifier error %q not delivered to the consumer, got %v", r.err, finalErr))
+				}
+				if !bytes.Equal(got, r.out) {
+					v = append(v, fmt.Sprintf("the minifier failed (%s) after writing %q in the plain call; the consumer read %q before the error", r.err, r.out, got))
+				}
 			}
 			return v, fmt.Sprintf("%q/%v", got, errStr(finalErr))
 		}
